@@ -233,16 +233,17 @@ CHECKS.append({
 })
 CHECKS.append({
     "property_id": "C07",
-    "text": ("coq/Props/C07.v over the shared codec model coq/Model/Codec.v against the independent arithmetic reference codec coq/Spec/Wire.v "
-             "(div/mod layout, Flocq for REAL/LREAL, hand-written table of documented CIP type codes): encode_is_spec and decode_is_spec by "
-             "induction on the type term — for every value and EVERY byte pattern (stream semantics, fuel) the model's outcome is the "
-             "reference's, under computable guards that exclude exactly the deviation classes of the real code; structtag_layout pointwise "
-             "(members at offsets, BOOL members in host bits, zero padding); type_codes (every documented code maps to a type of that width, on "
-             "the regenerated rows); round32/widen32 = Flocq's binary_round on every bit pattern. C07_full is REFUTED by vm_compute witnesses "
-             "replayed on the real code (13 known-finding classes: STRING2/STRINGN character width, zero-count STRINGN, bit-array truncation, "
-             "arrays of n_bytes, DATE_AND_TIME arity/size, StructTag members out of offset order, silent short reads); C07_guarded is proved. "
-             "Tie: the extracted reference vs the real T.encode/T.decode (1-byte types exhaustive, floats vs Flocq, prefix limits, random "
-             "templates, truncations) plus model/implementation correspondence."),
+    "text": ("coq/Props/C07.v over the shared codec model against the independent arithmetic reference codec coq/Spec/Wire.v (div/mod layout, "
+             "utf-16-le / utf-32 code units, Flocq for REAL/LREAL, hand-written table of documented CIP type codes): decode_is_spec — for every "
+             "type in the reference's scope and EVERY byte pattern (stream semantics, fuel; non-canonical BOOL bytes, NaN payloads, truncated "
+             "buffers) the model's outcome is the reference's, with no type-level exclusion; encode_is_spec for every value outside one class; "
+             "structtag_layout pointwise (members at offsets in any order, BOOL members in host bits, zero padding); type_codes for every row "
+             "(closed under the global context); round32/widen32 = Flocq's binary_round on every bit pattern. C07_full remains refuted only by "
+             "the two classes /repo still has (over-long bit-string arrays not truncated; a buffer ending inside an element of an unbounded "
+             "array of composite elements), each a vm_compute witness replayed on the real code and a known finding; C07_guarded is proved "
+             "under exactly those guards. Eleven earlier deviation classes were repaired in /repo (fixed: lines). Tie: the extracted reference "
+             "vs the real T.encode/T.decode (1-byte types exhaustive, floats vs Flocq, prefix limits, random templates, truncations) plus "
+             "model/implementation correspondence."),
     "note": COMMON_NOTE + " C07: Print Assumptions lists only the stdlib real-number/classical axioms Flocq brings (ClassicalDedekindReals.sig_not_dec, sig_forall_dec, functional_extensionality_dep, Classical_Prop.classic); type_codes is closed. STRINGI, IPAddress, PCCC types, identity structs and Array(L, T) have no reference (model correspondence only).",
     "technique": "Coq proof (model = independent arithmetic reference codec, induction on type terms; Flocq) + reference-vs-implementation differential oracle",
     "design_ref": "DESIGN.md section 7, C07",
@@ -250,15 +251,16 @@ CHECKS.append({
 CHECKS.append({
     "property_id": "C08",
     "text": ("coq/Props/C08.v over the shared codec model (whose primitives raise foreign exceptions exactly where Python's do and whose public "
-             "wrappers sit where the code's do): decode_lib (every decode error is DataError/BufferEmpty after the wrappers, any fuel/type/"
-             "buffer), decode_terminates (hprogress t -> every fuel above the buffer length suffices; nested induction on type terms), "
-             "unbounded_array_hangs (the exact hang condition), strict_decode / no_short_fixed_width (strict fixed-width types consume exactly "
-             "their width), buffer_empty_at_end, encode_lib + enc_foreign_escapes (exact guard for the TypeError escapes), encode_rejects, "
-             "decode_all_exact. C08_full's six clauses are each REFUTED by vm_compute witnesses replayed on the real code (15 known-finding "
-             "classes: Array.encode(None) TypeError, Struct.encode dropping members, silent short reads, unbounded arrays over zero-width "
-             "elements never terminating, zero-count STRINGN, ...); C08_guarded proves all clauses under the exact guards. Tie: shared "
-             "model/implementation correspondence (malformed stream: every truncation point, junk, out-of-domain values) with the implementation "
-             "run in a forked child under an alarm (HANG is an observation)."),
+             "wrappers sit where the code's do). Held at full strength for every type and input: C08_encode_total_holds (no exception but "
+             "DataError escapes any encode), C08_buffer_empty_holds and C08_no_short_read_holds (strings, n_bytes, FixedSizeString, PCCC_ASCII, "
+             "padded StructTags: no value from fewer bytes than announced, BufferEmpty only at the end of the buffer), "
+             "C08_decode_all_exact_holds (an unbounded array over a whole number of elements decodes exactly those); decode_terminates for "
+             "every type without a length-prefixed array, unconditionally (nested induction on type terms with explicit fuel). Still refuted, "
+             "each by a vm_compute witness replayed on the real code and listed as a known finding: encode_rejects for bit-string arrays "
+             "(length ignored) and termination / error class for Array(<length type>, T) over an element type of no size with a huge count; "
+             "C08_guarded proves all seven clauses under exactly those two guards. Fourteen earlier deviation classes were repaired in /repo "
+             "(C08_repaired, fixed: lines). Tie: shared model/implementation correspondence (malformed stream: every truncation point, junk, "
+             "out-of-domain values) with the implementation run in a forked child under an alarm (HANG is an observation)."),
     "note": COMMON_NOTE + " C08: closed under the global context (coqchk -o: no axioms). 'BufferEmptyError where a value should start' is read as 'at the end of the buffer' (stated in the evidence assumptions).",
     "technique": "Coq proof (exception algebra and termination by nested induction on type terms with explicit fuel) + malformed-input correspondence with hang detection",
     "design_ref": "DESIGN.md section 7, C08",
@@ -276,9 +278,9 @@ CHECKS.append({
              "= the full C01 conclusion (truthy Tag, value = ref_read, documented type string) for every request satisfying request_ok, over all "
              "projects with a sound layout, all memory images, fragment policies, connection sizes, single / multi / fragmented plans; the string "
              "layer request_ok is PROVED end to end for whole tags of any type, name[i,j,k].b{n} on atomic / array / struct / string tags and all "
-             "BOOL-array forms (C01_tags_hold, C01_single_segment_holds), by symbolic or instance addressing. NOT proved: request_ok for "
-             "structure-member paths (tag.member[..].x) and program-scoped tags — there it is a hypothesis and only the correspondence and the "
-             "oracle cover them. C01_full is refuted by one witness replayed on the real driver (element count >= 65536 does not fit the UINT "
+             "BOOL-array forms (C01_tags_hold, C01_single_segment_holds), by symbolic or instance addressing. C01_paths_hold: the same conclusion for structured requests [Program:P.]tag[i..].m[j..]...[.bit][{n}] of any tag "
+             "type and scope under symbolic addressing (three-way walk reference / target / client). NOT proved: the inversion of "
+             "Expect.parse_request (an arbitrary accepted string is the text of a structured request). C01_full is refuted by one witness replayed on the real driver (element count >= 65536 does not fit the UINT "
              "field; known finding) and proved under that guard given resolution soundness. Tie: byte-for-byte request frames and Tags, model vs "
              "real LogixDriver.read against the live target; oracle: every returned Tag vs ref_read on random projects, both connection sizes, "
              "fragment policies, size sweeps around the connection size, Micro800."),
@@ -325,17 +327,19 @@ CHECKS.append({
 CHECKS.append({
     "property_id": "C06",
     "text": ("coq/Props/C06.v over the shared codec model coq/Model/Codec.v (deep embedding of every exported / constructed type: elementary, "
-             "strings, bit strings, fixed / length-prefixed / unbounded arrays, structs from dict or sequence, StructTag with offsets, bit members "
-             "and hidden hosts, FixedSizeString, identity / revision / IP objects, PCCC strings; elementary rows regenerated from /repo): "
-             "roundtrip — for every type term t, value v and trailing bytes rest with wf_ty t and in_dom t v (rest = [] for greedy types), encode "
-             "succeeds and decode (encoding ++ rest) = (norm t v, rest): the value comes back (REAL rounded to binary32 as Flocq's "
-             "binary_normalize does, over-long inputs to fixed arrays truncated), exactly the encoded bytes are consumed and following data is "
-             "untouched — by nested induction on type terms; struct_dict_positional for EVERY value; C06_full over the documented domain is "
-             "REFUTED by vm_compute witnesses replayed on the real code (14 known-finding classes: STRING2, empty STRINGN, length-prefixed "
-             "arrays, DATE_AND_TIME arity, arrays of n_bytes, bit-string arrays, zero-size types, PCCC_STRING, ListIdentityObject without "
-             "encoder, STRINGI items) and C06_guarded is proved under the exact computable guard. Tie: ~44k compared cases per quick run "
-             "(encode, decode with trailing data, every truncation, junk) through the extracted model and the real classes in a forked child; "
-             "oracle = the law itself on the implementation incl. stream.tell()."),
+             "strings incl. 2-byte and n-byte characters, bit strings, fixed / length-prefixed / unbounded arrays, structs from dict or sequence, "
+             "StructTag with offsets in any order, bit members and hidden hosts, FixedSizeString, DATE_AND_TIME, identity / revision / IP objects, "
+             "PCCC strings; elementary rows and character sizes regenerated from /repo): roundtrip — for every type term t, value v and trailing "
+             "bytes rest with wf_ty t and in_dom t v (rest = [] for greedy types), encode succeeds and decode (encoding ++ rest) = (norm t v, "
+             "rest): the value comes back (REAL rounded to binary32 exactly as Flocq's binary_normalize, over-long inputs to fixed arrays "
+             "truncated), exactly the encoded bytes are consumed, following data is untouched — by nested induction on type terms; "
+             "struct_dict_positional for EVERY value; C06_string2_domain (every string of Unicode scalar values whose UTF-16 length fits the "
+             "prefix is in the domain; utf16_inverts by induction); C06_length_prefixed (count ++ elements decodes back). After the repairs in "
+             "/repo the guard excludes only: Array(<length type>).encode writing no prefix (documented; the refutation witness), over-long "
+             "bit-string arrays, PCCC_STRING, ListIdentityObject without encoder (5 known-finding classes, each a vm_compute witness replayed on "
+             "the real code); C06_guarded is proved under that exact computable guard. Tie: ~44k compared cases per quick run (encode, decode "
+             "with trailing data, every truncation, junk) through the extracted model and the real classes in a forked child; oracle = the law "
+             "itself on the implementation incl. stream.tell()."),
     "note": COMMON_NOTE + " C06: roundtrip and C06_guarded are closed under the global context; C06_real_precision uses the four stdlib real-number/classical axioms Flocq brings. StructTag layouts with bit members overlaying a visible host are outside wf_ty (checked on the implementation only).",
     "technique": "Coq proof (round-trip law by nested induction on a deep embedding of types; Flocq for REAL) + model/implementation correspondence and round-trip oracle",
     "design_ref": "DESIGN.md section 7, C06",
